@@ -624,14 +624,33 @@ def _merge_and_condition(chk, f):
             continue
         mv = star[0].id
         # loop header of the handler loop
-        loops = [h for h in cfg.nodes if h.kind == "loop" and isinstance(h.ast.target, ast.Name) and h.ast.target.id == hv]
-        chk.require(loops, "C01: handler loop not found in %s" % f.qualname)
-        head = loops[0]
+        loops = [h for h in cfg.nodes if h.kind == "loop" and any(isinstance(t, ast.Name) and t.id == hv for t in ast.walk(h.ast.target))
+                 and _in_body(h.ast, c)]
+        chk.need(loops, "DOM-2", "handlers are called one by one in a loop over the registered handlers", f)
+        head = loops[-1]
         it = [b for b in cfg.nodes if b.kind == "branch" and b.test == head.id and b.tag == "iter"][0]
+        # ---- DOM-2c: a condition is evaluated when its handler is reached -- in the dispatch loop, in the handler's own iteration,
+        # after the earlier handlers ran (they may change what the condition reads; a queue handler may even be waited for)
+        ev_all = [x for x in ast.walk(f.node) if isinstance(x, ast.Call) and call_attr(x) == "evaluate" and ".condition" in src(x.func)]
+        for x in ev_all:
+            chk.ob("DOM-2", "%s evaluates a handler's condition when that handler is reached (inside the dispatch loop)" % f.qualname,
+                   _in_body(head.ast, x), f.where(x), detail="evaluated ahead of the loop the condition is stale for every handler but the first",
+                   construct=f.ident, text="condition evaluated outside the dispatch loop")
         # definitions of mv inside the loop
         defs = [d for d in cfg.nodes_where(lambda d: d.kind == "stmt" and isinstance(d.ast, ast.Assign) and
                                            any(isinstance(t, ast.Name) and t.id == mv for t in d.ast.targets))]
-        chk.require(defs, "C01: no definition of %s in %s" % (mv, f.qualname))
+        if not defs:
+            # the merge may be written as an expression elsewhere (a comprehension element): order of its sources is still decidable
+            exprs = [x for x in ast.walk(f.node) if isinstance(x, (ast.Call, ast.Dict)) and (merge_sources(x) or []) and
+                     any(s_.endswith(".kwargs") for s_ in merge_sources(x)) and posted in merge_sources(x)]
+            chk.need(exprs, "FLOW-1", "posted and handler kwargs are merged for the handler call", f)
+            for x in exprs:
+                srcs = merge_sources(x)
+                hs = [s_ for s_ in srcs if s_.endswith(".kwargs")][0]
+                ok = max(i for i, s_ in enumerate(srcs) if s_ == hs) > max(i for i, s_ in enumerate(srcs) if s_ == posted)
+                chk.ob("FLOW-1", "handler kwargs are merged after (override) posted kwargs in %s" % f.qualname, ok, f.where(x),
+                       detail="merge order %s" % srcs, construct=f.ident, text="merge order " + ",".join(srcs))
+            continue
         full = 0
         for d in defs:
             srcs = merge_sources(d.ast.value)
@@ -889,6 +908,8 @@ def battery():
         M("twin: unconditional sort", E, "        if len(self.registered_handlers[event]) > 1:\n            self.registered_handlers[event].sort(key=lambda x: x.priority, reverse=True)", "        self.registered_handlers[event].sort(key=lambda x: x.priority, reverse=True)", None),
         M("twin: early-continue condition", E, "            if handler.condition is not None and not handler.condition.evaluate(merged_kwargs):\n                continue\n\n            if self._debug:", "            if handler.condition is not None:\n                if not handler.condition.evaluate(merged_kwargs):\n                    continue\n\n            if self._debug:", None),
         M("twin: renamed local", E, "posted_event", "pe", None, nth=-1),
+        M("conditions of a queue event evaluated once before the dispatch loop", EV, "        for handler in self.registered_handlers[event][:]:", "        for handler in [h for h in self.registered_handlers[event] if h.condition is None or h.condition.evaluate(dict(list(kwargs.items()) + list(h.kwargs.items())))]:", "DOM-2", nth=0),
+        M("twin: dispatch loop over a tuple-unpacked snapshot", EV, "        for handler in self.registered_handlers[event][:]:", "        for handler, _prio in [(h, h.priority) for h in self.registered_handlers[event]]:", None, nth=0),
     ]
 
 
